@@ -401,6 +401,14 @@ def load_known(pid):
     return known
 
 
+def in_project(vfile):
+    """is coq/<vfile> listed in coq/_CoqProject (then `make` builds it; no private coqc loop needed)"""
+    try:
+        return vfile in open(os.path.join(COQ, "_CoqProject")).read().split()
+    except OSError:
+        return False
+
+
 def diff_lines(cases, a, b):
     """Indices where model and implementation lines differ."""
     return [i for i in range(len(cases)) if a[i] != b[i]]
